@@ -45,6 +45,13 @@ def observe(job):
          "rew": mdp["rew"], "pk": mdp["pk"], "PD": PD, "GN": 1, "GD": 2}
     o = {"m": m, "tn": tn, "td": td, "fk": fk, "tf": tf, "K": K, "outcome": "ok", "errs": 0, "erra": 0, "P": [], "R": [], "pok": False,
          "rok": False, "unit": False, "propok": False, "shapeok": False, "msg": ""}
+    # earlier calls on the SAME problem instance with other tolerances (their outcomes are not judged here): a call's
+    # outcome must depend on its own tolerance only
+    for ptn, ptd in job.get("pre_tols", []):
+        try:
+            prob.build_transition_and_reward_matrices(normalization_tolerance=ptn / ptd)
+        except ValueError:
+            pass
     try:
         P, R = prob.build_transition_and_reward_matrices(normalization_tolerance=tn / td + tf * 2.0 ** -K)
     except ValueError as ex:
